@@ -187,3 +187,31 @@ theorem run_mono_counts (code : Code) (keep : Nat) :
         · right; omega
 
 end Tengo.Model.VM
+
+namespace Tengo.Model.VM
+open Tengo.Model.Spec
+
+/-- **Fuel is only a bound.** An outcome other than "out of fuel" does not depend on how much fuel
+was given beyond what the run needed: outcome, dispatch count, allocation count and the whole log
+are the same for every larger fuel. -/
+theorem run_fuel_mono (code : Code) (keep : Nat) :
+    ∀ (fuel : Nat) (allocs : Int) (cfg : Cfg) (log : Log) (k : Nat),
+      (∀ c, (run code keep fuel allocs cfg log).1 ≠ .outOfFuel c) →
+      run code keep (fuel + k) allocs cfg log = run code keep fuel allocs cfg log := by
+  intro fuel
+  induction fuel with
+  | zero => intro allocs cfg log k h; exact absurd rfl (h cfg)
+  | succ fuel ih =>
+    intro allocs cfg log k
+    have hk : fuel + 1 + k = (fuel + k) + 1 := by omega
+    rw [hk, run_succ, run_succ]
+    split
+    · intro _; rfl
+    · intro _; rfl
+    · intro _; rfl
+    · intro h; exact ih allocs _ _ k h
+    · split
+      · intro _; rfl
+      · intro h; exact ih (allocs - 1) _ _ k h
+
+end Tengo.Model.VM
